@@ -133,8 +133,8 @@ def c04_runs(tier):
     #     of depth 1 / 2, at every position of every program under every load (all by data nondeterminism)
     for set_ in SETS:
         for n in (0, 1, 2):
-            L = 2 if quick else 3
-            add(set_, n, 't0', '?%d' % L, 0, load='?', budget=60 if quick else 240)
+            L = (2 if quick else 3) - (1 if n == 2 else 0)  # 2 workers: bound 0 already branches at every blocking point
+            add(set_, n, 't0', '?%d' % L, 0, load='?', budget=60 if quick else 300)
             if quick and n == 2:
                 continue
             # (no pool gates under a cascade: the top's wait() on T0 could pick one up and never reach the runner)
@@ -177,6 +177,12 @@ def c04_runs(tier):
                     continue
                 g = c04_gates(set_, n) if (loaded and n) else 0
                 add(set_, n, 'ex', p, 1 if n < 2 else (0 if quick else 1), g=g, mask=mask, pos=0, budget=60 if quick else 150)
+    # default multipliers: a pool thread (cascade runner) cancels and goes on submitting
+    for set_ in SETS:
+        add(set_, 1, 'p1', 'qs', 1, slm=4, plm=32, budget=60)
+        if not quick:
+            add(set_, 2, 'p1', 'qqs', 1, slm=4, plm=32, budget=200)
+            add(set_, 1, 'P1', 'qsb2', 1, slm=4, plm=32, budget=100)
     # sanitizer legs
     add('cl', 1, 't1', 's', 1, g=2, pos=0, mode='tsan', budget=50)
     add('ts', 1, 'P1', 's', 1, g=2, pos=0, mode='tsan', budget=50)
@@ -214,8 +220,10 @@ def c05_runs(tier):
 
     allp = ','.join(C05_PROGS)
     # (a) bound 0: every program of 1..3 tasks x every subset of throwers x {no load, set over its load factor} (g=-1),
-    #     all by data nondeterminism
+    #     all by data nondeterminism. With 2 workers bound 0 already branches at every blocking point, so the quick
+    #     tier takes a sub-alphabet there.
     k = 0
+    small = 'qq,b2,sq,b3,qb2'
     for set_ in SETS:
         for n in (0, 1, 2):
             seqs = [('ww8', 'n'), ('8w0', 'x')]
@@ -223,7 +231,12 @@ def c05_runs(tier):
                 seqs = [seqs[k % 2]]
             k += 1
             for ws, r in seqs:
-                add(set_, n, '?1', -1, 0, g=-1, ws=ws, r=r, alpha=allp, budget=60 if quick else 200)
+                if n == 2:
+                    add(set_, n, '?1', -1, 0, g=0, ws=ws, r=r, alpha=small if quick else allp, budget=40 if quick else 300)
+                    if not quick:
+                        add(set_, n, '?1', -1, 0, g=c04_gates(set_, 2), ws=ws, r=r, alpha=small, budget=200)
+                else:
+                    add(set_, n, '?1', -1, 0, g=-1, ws=ws, r=r, alpha=allp, budget=60 if quick else 200)
         # zero-thread pool: a force-queued bulk first keeps tasks outstanding, so schedule() runs the functor inline
         add(set_, 0, '?1', -1, 0, alpha='B1s,B1ss,B2s,B1sq,B1b2', ws='ww8', r='x')
     # (b) bound 1: throwers racing each other / the waiter; inline throwers with queued ones behind them
@@ -236,8 +249,10 @@ def c05_runs(tier):
                 add(set_, 1, p, m, 1, g=0, ws='ww8', r='n', slm=(4 if p[0] in 'bB' else 1), budget=60)
             if ('s' in p or 'b' in p) and not (quick and p == 'b3'):
                 add(set_, 1, p, m, 1, g=gl, ws='w8w', r='x', budget=60)
-        for p, m in (sel[:1] if quick else sel[:6]):
-            add(set_, 2, p, m, 1, g=0, ws='ww8', r='n', slm=(4 if p[0] in 'bB' else 1), budget=90 if quick else 150)
+        for p, m in ([] if quick else sel[:4]):
+            add(set_, 2, p, m, 1, g=0, ws='w', r='n', slm=(4 if p[0] in 'bB' else 1), budget=200)
+        if quick and set_ == 'ts':
+            add(set_, 2, 'qq', 3, 1, g=0, ws='w', r='n', budget=40)
         if not quick:
             add(set_, 1, '?1', -1, 1, alpha='s,q,b1,ss,sq,qq,b2,B2', ws='ww8', r='n', budget=300)
             add(set_, 1, 'qq', 3, 2, ws='ww8', r='n', budget=150)
